@@ -22,7 +22,9 @@ _f_glob2regex = z3.Function("glob2regex", Node, Node)
 
 @REG.specfun("name_anc")
 def _name_anc(eng, st, a, b):
-    """a is a strict dotted ancestor of b (b == a + '.' + rest)."""
+    """a is a strict dotted ancestor of b (b == a + '.' + rest). Uninterpreted in the opaque view, defined on strings."""
+    if vals.STRING_MODE:
+        return V(("bool",), z3.PrefixOf(z3.Concat(a.x, z3.StringVal(".")), b.x))
     return V(("bool",), _f_name_anc(a.x, b.x))
 
 
@@ -138,10 +140,19 @@ REG.macro("dedup_member", ["M", "f"], "(f in M) and not exists(Filter, lambda p:
 from .speclib import set_function
 set_function("dedup", dict(M="Bag[Filter]"), "f", "Filter", "dedup_member(M, f)")
 REG.add(Contract("Rule._get_modules_to_check_without_parent_and_submodule_combinations", module=M_RULE, kind="classmethod",
-                 status="string-level", params=dict(configuration="RuleConfiguration"), returns="Opt[Bag[Filter]]",
+                 view="string", params=dict(configuration="RuleConfiguration"), returns="Opt[Bag[Filter]]",
+                 # C14 / C12-alias: a subject is dropped exactly when another listed subject is its strict DOTTED ancestor
                  ensures=["is_none(result) == is_none(configuration.modules_to_check)",
                           "implies(not is_none(result), same_elements(unwrap(result), dedup(unwrap(configuration.modules_to_check))))"],
-                 note="verified on strings in c_strings.py (flagged site, C14)", properties=["C12", "C14", "C01"]))
+                 locals=dict(result="Bag[Filter]", module_names="Bag[Node]"),
+                 loops={
+                     0: dict(sig="for module in configuration.modules_to_check", invariant=[
+                         "forall(Filter, lambda f: (f in result) == ((f in seen) and dedup_member(unwrap(configuration.modules_to_check), f)))"]),
+                     1: dict(sig="for module_name in module_names", invariant=[
+                         "parent_module_found == exists(Node, lambda n: (n in seen) and name_anc(n, fid(module)))"]),
+                 },
+                 note="flagged site (C14): verified in the string view where name_anc(a, b) is b.startswith(a + '.')",
+                 properties=["C12", "C14", "C01"]))
 REG.add(Contract("Rule._convert_aliases", module=M_RULE, kind="classmethod", params=dict(configuration="RuleConfiguration"),
                  returns="RuleConfiguration",
                  ensures=["implies(not configuration.rule_object_anything, result == configuration)",
